@@ -12,7 +12,7 @@ set_option linter.unusedVariables false
 
 /-- Representation invariant of a dynamic buffer: no block, no capacity. (`grow_buff` before its
     repair broke it: `malloced` raised, `data` NULL.) -/
-def ABuf.ok (b : ABuf) : Prop := b.isStatic = false → b.dataId = none → b.malloced = 0
+def ABuf.ok (b : ABuf) : Prop := b.isStatic = false → b.dataId = none → b.malloced = 0 ∧ b.bytes = []
 
 theorem bufCreate_spec (src : Option Bytes) (blk : Nat) (s : Ledger) (wf : s.WF) :
     Good (bufCreate src blk) s (fun r s' =>
@@ -180,7 +180,7 @@ theorem growBuff_spec (b : ABuf) (size : Nat) (s : Ledger) (wf : s.WF) (own : Ow
       cases hd : b.dataId with
       | some q => simp
       | none =>
-        have := hok hst hd
+        have := (hok hst hd).1
         simp only [ABuf.len] at hroom
         omega
 
@@ -259,16 +259,26 @@ theorem bufInsertCstr_spec (b : ABuf) (str : Bytes) (pos : Nat) (s : Ledger) (wf
   · exact insertData_spec b pos str s0 wf own hok
 
 theorem bufCstr_spec (b : ABuf) (s : Ledger) (hlive : b.hdr ∈ s.live) :
-    Good (bufCstr b) s (fun _ s' => s' = s) := by
+    Good (bufCstr b) s (fun r s' => s' = s ∧ (b.ok → r.isSome)) := by
   unfold bufCstr
   simp only [bind_eq, pure_eq]
   refine Good.bind (deref_spec b.hdr s hlive) ?_
   intro _ s0 e0; subst e0
   split
   · simp [good_ret]
-  · split
+  · next hlen =>
+    split
     · simp [good_ret]
-    · split <;> simp [good_ret]
+    · next hst =>
+      split
+      · next hd =>
+        simp only [good_ret, true_and]
+        intro hok
+        have hs : b.isStatic = false := by simpa using hst
+        have hdn : b.dataId = none := by simpa using hd
+        have := (hok hs hdn).2
+        simp [ABuf.len, this] at hlen
+      · simp [good_ret]
 
 theorem bufAppend_spec (dest : ABuf) (src : Option ABuf) (s : Ledger) (wf : s.WF) (own : Owns s dest.owned) (hok : dest.ok)
     (hsrc : ∀ x, src = some x → x.hdr ∈ s.live) :
@@ -285,7 +295,7 @@ theorem bufAppend_spec (dest : ABuf) (src : Option ABuf) (s : Ledger) (wf : s.WF
     | some x =>
       simp only
       refine Good.bind (bufCstr_spec x s0 (hsrc x rfl)) ?_
-      intro d s1 e1; subst e1
+      intro d s1 ⟨e1, _⟩; subst e1
       exact bufAppendData_spec dest d s1 wf own hok
 
 theorem bufDuplicate_spec (b : Option ABuf) (s : Ledger) (wf : s.WF) (hb : ∀ x, b = some x → x.hdr ∈ s.live) :
@@ -300,7 +310,7 @@ theorem bufDuplicate_spec (b : Option ABuf) (s : Ledger) (wf : s.WF) (hb : ∀ x
     unfold bufDuplicate
     simp only [bind_eq]
     refine Good.bind (bufCstr_spec x s (hb x rfl)) ?_
-    intro d s1 e1; subst e1
+    intro d s1 ⟨e1, _⟩; subst e1
     refine (bufCreate_spec d x.len s1 wf).mono ?_
     intro r s' ⟨c, h, hs, hk⟩
     exact ⟨c, h, fun y hy => ⟨hs y hy, hk y hy⟩, by simp⟩
